@@ -279,6 +279,16 @@ func NewManager(cfg ManagerConfig, logger *zap.Logger) (*Manager, error) {
 		portEnd = 65535
 	}
 
+	// Ports are 16 bit. Block boundaries are computed in uint16, so a range or block
+	// size outside 1..65535 would wrap around and hand out blocks that lie outside the
+	// range or coincide with blocks other subscribers hold.
+	if portStart < 1 || portEnd > 65535 {
+		return nil, fmt.Errorf("invalid NAT port range %d-%d: ports must be within 1-65535", portStart, portEnd)
+	}
+	if portsPerSub < 1 || portsPerSub > 65535 {
+		return nil, fmt.Errorf("invalid ports per subscriber %d: must be within 1-65535", portsPerSub)
+	}
+
 	return &Manager{
 		iface:              cfg.Interface,
 		bpfPath:            bpfPath,
